@@ -33,7 +33,7 @@ OBLIGATIONS = ["NiftyVerif.C30." + t for t in (
     "invgamma_mode_mean_spec", "invgamma_mode_mean_rejects", "gamma_mean_var_spec",
     "interp_monotone", "interp_strictMono", "interp_nodes", "interp_between", "interp_range",
     "invgamma_monotone_and_step_error", "inverse_roundtrip_interp", "inverse_roundtrip_invgamma",
-    "interpolator_grid_covers", "invgamma_exact_at_nodes", "strictMono_tabulated_cl", "quantile_tabulated_cl",
+    "interpolator_grid_covers", "invgamma_exact_at_nodes", "strictMono_tabulated_cl_partial", "tabulated_cl_witness", "quantile_tabulated_cl",
     "invgamma_cl_jacobian", "pushforward_cdf", "invgamma_prior_spec", "interpolator_grid_num_covers", "classic_eq_jax",
     "log1pStable_eq", "lognormal_moments_stable", "lognormal_moments_stable_value")]
 RULE = ("case = (family, parameters, implementations, sorted standard-normal points x = Phi^-1(p) with p in [1e-12, 1-1e-12], "
